@@ -30,8 +30,8 @@ Bad(laws, i, j) == PrintT(<<"BADROW", laws, i, j>>) /\ FALSE
 KwOK(i) ==
   LET r == Table[i]
       clash == {j \in FamKw[r.fam] : E!SameKeyword(r, Table[j])}
-  IN /\ (E!RoundTrip(r) \/ Bad({"RoundTrip"}, i, 0))
-     /\ (clash = {} \/ Bad({"Injective"}, i, CHOOSE j \in clash : TRUE))
+      broken == (IF E!RoundTrip(r) THEN {} ELSE {"RoundTrip"}) \cup (IF clash = {} THEN {} ELSE {"Injective"})
+  IN broken = {} \/ Bad(broken, i, IF clash = {} THEN 0 ELSE CHOOSE j \in clash : TRUE)      \* both, not only the first
 
 SetOK(i) ==
   LET r == Table[i]
